@@ -13,12 +13,13 @@ TECHNIQUE = ('pairing rules on built MIR (capacity terms vs unchecked writes, st
              'pass exploration of the Payload arm of send, representation-invariant lint of IndexMap, literal tables')
 LEVEL_TEXT = ('Decides clauses C03-a..g: in every arm of Response::send the summands of the reserved capacity cover, by provenance, each unchecked write into that '
               'buffer, and only functions that reserved `size` call write_unchecked_to; every mutator of the response header stores updates `size` on each mutating '
-              "path, with the literals the writer emits per entry kind; IndexMap's readers and its delete/set agree on which entries are live (no stale duplicate can"
-              ' be iterated); every function storing Content::Payload also sets Content-Length from the length of the same bytes (Content::Stream: chunked, no '
-              'length); complete() drops length and body for 204 and length for streams and is called on every path of Router::handle; status lines and header names '
-              'are well-formed tokens; on every flag-consistent path through the Content::Payload arm of Response::send the payload bytes reach the connection '
-              'exactly once (staged into the buffer that is then written, or written directly), so the announced Content-Length is followed by that many bytes. '
-              'Decides these clauses, not byte-level well-formedness for all operation histories.')
+              'path (including in-place changes of a stored value through the reference handed out by get_mut), with the literals the writer emits per entry kind; '
+              "IndexMap's readers and its delete/set agree on which entries are live (no stale duplicate can be iterated); every function storing Content::Payload "
+              'also sets Content-Length from the length of the same bytes (Content::Stream: chunked, no length); complete() drops length and body for 204 and length '
+              'for streams and is called on every path of Router::handle; status lines and header names are well-formed tokens; on every flag-consistent path through'
+              ' the Content::Payload arm of Response::send the payload bytes reach the connection exactly once (staged into the buffer that is then written, or '
+              'written directly), so the announced Content-Length is followed by that many bytes. Decides these clauses, not byte-level well-formedness for all '
+              'operation histories.')
 
 HDR = r"^ohkami::response::headers::Headers$"
 
@@ -220,6 +221,7 @@ def c03g(ck, prog):
 
 
 # ------------------------------------------------------------------------------------------------
+STORED_VALUE_REF = re.compile(r"^&(?:'\w+ )?mut (?:alloc|std)::borrow::Cow<")  # `&mut Cow<'static, str>`: a stored header value
 MUTATORS = r"IndexMap::<N, Value>::(set|delete)$|TupleMap::<K, V>::(insert|remove|clear)$|Vec::<T, A>::(push|pop|clear|remove|insert|truncate)$"
 
 
@@ -268,10 +270,40 @@ def c03b(ck, prog):
             ck.ob(R, "%s:%s(%s)" % (f.name, c.name, recv[:30]), ok, f.loc(c.sp),
                   "" if ok else "Headers::%s mutates the header store (%s on %s) on a path that does not update `size`: the serializer reserves `size` bytes and writes unchecked" % (f.name, c.name, recv),
                   how="`size` assignment on every path through the mutation")
-        # in-place replacement `*old = value` (insert of an existing name): size must change by the length difference
-        for bi, b in enumerate(f.blocks):
-            if b["cleanup"] or bi not in f.live_blocks():
+        # in-place changes of a stored value through the `&mut` handed out by get_mut (`*v = value`, `v.push_str(..)`):
+        # every path from such a write to the function's exit passes an update of `size`
+        sblocks = {sb for sb, _ in ss}
+        exits = set(f.exits())
+        for bi in sorted(f.live_blocks()):
+            b = f.blocks[bi]
+            if b["cleanup"]:
                 continue
+            sites = []
+            for st in b["st"]:
+                if st["k"] == "=" and st["p"][1] and st["p"][1][0][0] == "d" and not any(pr[0] == "f" and pr[2] == "size" for pr in st["p"][1]):
+                    d = guards.describe_origin(f, f.origin([st["p"][0], []]))
+                    if re.search(r"call:get_mut as Some", d) or STORED_VALUE_REF.search(f.locals[st["p"][0]] or ""):
+                        sites.append(("`*v = ..`", st.get("sp"), None))
+            t = b["t"]
+            if t["k"] == "call":
+                c = Call(f, bi, t, False)
+                if c.name in ("push_str", "push", "insert_str", "extend", "extend_from_slice", "to_mut", "truncate", "clear", "make_ascii_lowercase") and c.args:
+                    d = guards.describe_origin(f, f.origin(c.args[0]))
+                    dd = decision.describe_deep(f, c.args[0], 5)
+                    root = f.origin(c.args[0])
+                    rl = root[-1][1] if root and root[-1][0] == "multi" else None
+                    if re.search(r"call:get_mut as Some", d) or re.search(r"get_mut\(.*(standard|custom)", dd) or (rl is not None and STORED_VALUE_REF.search(f.locals[rl] or "")):
+                        sites.append(("%s(..)" % c.name, t.get("sp"), c))
+            for what, sp, c in sites:
+                start = c.target if c is not None and c.target is not None else bi
+                after = f.reachable_from(start, avoid=tuple(sblocks))
+                # a size store later in the same block as the write also counts
+                same = any(sb == bi for sb in sblocks) and c is None
+                ok = same or not (after & exits) or any(f.dominates(sb, bi) and sb != bi for sb in sblocks)
+                n += 1
+                ck.ob(R, "%s:in-place:%s" % (f.name, what), ok, f.loc(sp),
+                      "" if ok else "Headers::%s changes a stored header value in place (%s) on a path that reaches the exit without updating `size`: the serializer reserves `size` bytes and then writes the longer value unchecked"
+                      % (f.name, what), how="`size` assignment on every path after the in-place write")
     ck.floor(R, "mutation sites", n, 7)
     # WHO: `size` is assigned only by the audited mutators
     allowed = {"insert", "insert_custom", "remove", "remove_custom", "append", "append_custom", "SetCookie", "new", "_new"}
